@@ -165,11 +165,25 @@ def Mis.any (m : Mis) : Bool := m.width != 0 || m.resend || m.seq || m.desc || m
 
 /-! ### bundler state -/
 
+/-- ghost log of what an operation did to the sequence counters, in order (used only by the
+    proofs: the counter machine of Lemmas/C05*.lean is driven by these micro-events) -/
+inductive CEv where
+  | newStream (n : Name)                 -- ComposeDescriptor: `event_counters[name] = 1` for a new stream
+  | ensure (n : Name)                    -- _prepare_stream: both dicts := 1 when the stream has no counter
+  | emit (n : Name) (c : Nat) (replay : Bool)  -- ComposeEvent used seq_num c (replay: a bundle event)
+  | bump (n : Name) (c d : Nat)          -- collect advanced the counter from c by d
+  | commit (n : Name)                    -- _commit_sequence_counter
+  | reset                                -- reset_checkpoint_state
+  | rewind (descs : List Name)           -- rewind, with the keys of _descriptor_objs
+  | clear                                -- clear_checkpoint
+deriving DecidableEq, Repr
+
 structure Desc where
   uid : Nat
   keys : List Key                      -- descriptor_doc["data_keys"] (order kept)
   objs : List (Obj × List Key)         -- _descriptor_objs[name]
   ext : List Key                       -- get_external_data_keys(data_keys)
+  config : List (Obj × CfgBlock) := [] -- descriptor_doc["configuration"]
 deriving DecidableEq, Repr
 
 structure MonRec where
@@ -210,31 +224,20 @@ structure BState where
   envCfg : List (Obj × Config) := []           -- each device's current configuration
   dets : List (Obj × DetSt) := []              -- contract detectors
   subs : List (Obj × Nat) := []                -- how many times our closure is subscribed on the device
+  -- output: every document emitted so far, in order (what `emit` / `emit_sync` were called with)
+  out : List Doc := []
   -- ghost
   cpCleared : Bool := false   -- clear_checkpoint happened and no full reset_checkpoint_state since
+  log : List CEv := []        -- what happened to the sequence counters so far (micro-events)
 deriving Repr
 
-/-- ghost log of what an operation did to the sequence counters, in order (used only by the
-    proofs: the counter machine of Lemmas/C05*.lean is driven by these micro-events) -/
-inductive CEv where
-  | newStream (n : Name)                 -- ComposeDescriptor: `event_counters[name] = 1` for a new stream
-  | ensure (n : Name)                    -- _prepare_stream: both dicts := 1 when the stream has no counter
-  | emit (n : Name) (c : Nat) (replay : Bool)  -- ComposeEvent used seq_num c (replay: a bundle event)
-  | bump (n : Name) (c d : Nat)          -- collect advanced the counter from c by d
-  | commit (n : Name)                    -- _commit_sequence_counter
-  | reset                                -- reset_checkpoint_state
-  | rewind (descs : List Name)           -- rewind, with the keys of _descriptor_objs
-  | clear                                -- clear_checkpoint
-deriving DecidableEq, Repr
-
-/-- result of one operation: state after, documents emitted, device calls made, and the
-    exception (if any) that ended it -- state/documents up to the raise are kept, as in Python -/
+/-- result of one operation: the state after (its `out` holds the documents emitted), the device
+    calls made, and the exception (if any) that ended it -- state/documents up to the raise are kept,
+    as in Python -/
 structure Res where
   st : BState
-  docs : List Doc := []
   calls : List Call := []
   err : Option Err := none
-  cev : List CEv := []      -- ghost
 
 def Res.ok (s : BState) : Res := { st := s }
 def Res.fail (s : BState) (e : Err) : Res := { st := s, err := some e }
@@ -245,10 +248,17 @@ def Res.andThen (r : Res) (f : BState → Res) : Res :=
   | some _ => r
   | none =>
     let r2 := f r.st
-    { st := r2.st, docs := r.docs ++ r2.docs, calls := r.calls ++ r2.calls, err := r2.err, cev := r.cev ++ r2.cev }
+    { st := r2.st, calls := r.calls ++ r2.calls, err := r2.err }
 
-/-- apply a pure state change that is logged as the counter micro-events `evs` -/
-def Res.pure (s : BState) (evs : List CEv) : Res := { st := s, cev := evs }
+/-- `emit(name, doc)`: append to the output -/
+def BState.emit (s : BState) (d : Doc) : BState := { s with out := s.out ++ [d] }
+
+/-- ghost: record a counter micro-event -/
+def BState.logEv (s : BState) (e : CEv) : BState := { s with log := s.log ++ [e] }
+
+/-- the documents emitted between two states of the same bundler -/
+def docsSince (s s' : BState) : List Doc := s'.out.drop s.out.length
+def cevSince (s s' : BState) : List CEv := s'.log.drop s.log.length
 
 /-- operations on one RunBundler (after its `open_run`), plus environment events -/
 inductive Op where
